@@ -32,7 +32,7 @@ ASSUMPTIONS = [
 EXHAUSTIVE = {"quick": True, "thorough": True}
 EXHAUSTIVE_PARTS = {"quick": ["every raw value of every discovered instance"],
                     "thorough": ["every raw value of every discovered instance"]}
-FLOORS = {"quick": {"instances": 15, "time_durations": 40}, "thorough": {"instances": 15, "time_durations": 500}}
+FLOORS = {"quick": {"instances": 15, "time_durations": 40, "coord_instances": 5}, "thorough": {"instances": 15, "time_durations": 500, "coord_instances": 5}}
 MANIFEST = {
     "text": "Complete enumeration of the raw wire domain (256 or 65,536 values) of every quantised/fixed-point instance "
             "reachable from the templates, animation and mesh codecs, with exact round-trip, monotonicity, end-point and "
@@ -115,6 +115,20 @@ def check_qfloat(ctx, key, q, lower=None, upper=None, fake_ctx=None, tag=None):
             bad_exc.append((r, (r, repr(e))))
     _fails(ctx, inst, "roundtrip", bad_rt, "encode(decode(%r)=%r) = %r")
     _fails(ctx, inst, "raises", bad_exc, "raw %r raised %s")
+    # the plain-data decoding mode (what pretty-printed subfields use) is a decoding too
+    bad_pod = []
+    already = {r for r, _ in bad_rt} | {r for r, _ in bad_exc}
+    for r in raws:
+        if r in already:
+            continue        # same raw already reported through the default decoding mode (one root cause, one report)
+        try:
+            v = q.decode(r, fake_ctx, pod=True)
+            r2 = q.encode(v, fake_ctx)
+            if r2 != r:
+                bad_pod.append((r, (r, v, r2)))
+        except Exception as e:
+            bad_pod.append((r, (r, None, repr(e))))
+    _fails(ctx, inst, "roundtrip-pod", bad_pod, "encode(decode(%r, pod=True)=%r) = %r")
     ctx.last_bad_raws = {r for r, _ in bad_rt} | {r for r, _ in bad_exc}
     # monotonic
     bad_mono = []
@@ -189,6 +203,82 @@ def check_wire(ctx, key, spec, n_raw_bytes, lo_raw, hi_raw, signed, skip=()):
                 bad.append((r, (raw.hex(), None, repr(e))))
             n += 1
         _fails(ctx, key, "wire%s" % ("LE" if endian == "<" else "BE"), bad, "bytes %s -> %r -> %s")
+    return n
+
+
+_COORD_CACHE = None
+
+
+def discover_coords():
+    """multi-component field representations: quantised / fixed-point tuple coords and packed quaternions over them"""
+    global _COORD_CACHE
+    if _COORD_CACHE is None:
+        roots = [("SUBFIELD_SERIALIZERS", se.SUBFIELD_SERIALIZERS), ("templates", templates), ("llanim", llanim),
+                 ("mesh", mesh), ("objects", objects)]
+        d = {}
+        for path, o in walk(roots, (se.EncodedTupleCoord, se.PackedQuat)):
+            if isinstance(o, se.PackedQuat):
+                child = o._child_spec
+                if not isinstance(child, se.EncodedTupleCoord):
+                    continue
+                key = "PackedQuat(%s)" % coord_key(child)
+            else:
+                key = coord_key(o)
+            d.setdefault(key, (o, []))[1].append(path)
+        _COORD_CACHE = dict(sorted(d.items()))
+    return _COORD_CACHE
+
+
+def coord_key(o):
+    parts = []
+    for e in o._elem_specs:
+        parts.append(inst_key(e) if isinstance(e, (se.QuantizedFloatBase, se.FixedPoint)) else repr(e))
+    return "%s[%s x%d; %s]" % (type(o).__name__, _prim_name(o.ELEM_SPEC), o.NUM_ELEMS, " | ".join(sorted(set(parts))))
+
+
+def check_coord(ctx, key, spec):
+    """bytes -> value -> bytes for whole coordinate fields: each component swept over its full raw range with the others
+    pinned, plus a grid of boundary values in all components (the combinations a per-component sweep never reaches)"""
+    coord = spec._child_spec if isinstance(spec, se.PackedQuat) else spec
+    prim = coord.ELEM_SPEC
+    n_el = coord.NUM_ELEMS
+    size = prim.calc_size()
+    fmt = {1: "b" if prim.is_signed else "B", 2: "h" if prim.is_signed else "H"}[size]
+    lo, hi = prim.min_val, prim.max_val
+    mid = (lo + hi) // 2
+    edge = sorted({lo, lo + 1, mid - 1, mid, mid + 1, mid + 2, hi - 1, hi, lo + (hi - lo) // 4, lo + 3 * (hi - lo) // 4})
+    import itertools
+    cases = []
+    for i in range(n_el):
+        for pin in (lo, mid, hi):
+            for r in range(lo, hi + 1, 1 if size == 1 else 3):
+                c = [pin] * n_el
+                c[i] = r
+                cases.append(tuple(c))
+    cases.extend(itertools.product(edge, repeat=n_el) if n_el <= 3 else itertools.product(edge[::2], repeat=n_el))
+    n = 0
+    for endian in ("<", ">"):
+        bad = []
+        for k, c in enumerate(cases):
+            if endian == ">" and k % 5:
+                continue
+            raw = struct.pack(endian + fmt * n_el, *c)
+            try:
+                reader = se.BufferReader(endian, raw)
+                v = reader.read(spec)
+                w = se.BufferWriter(endian)
+                w.write(spec, v)
+                out = bytes(w.copy_buffer())
+                if out != raw or len(reader):
+                    bad.append((c, (raw.hex(), v, out.hex())))
+            except Exception as e:
+                bad.append((c, (raw.hex(), None, repr(e))))
+            n += 1
+        if bad:
+            first = bad[0]
+            ctx.fail("%s:coord-wire%s" % (key, "LE" if endian == "<" else "BE"),
+                     "%d raw component tuples do not survive, first: bytes %s -> %r -> %s" % ((len(bad),) + first[1]),
+                     {"coord": key, "raw": list(first[0]), "endian": endian})
     return n
 
 
@@ -315,6 +405,8 @@ def shards(tier):
     th = tier == "thorough"
     sh = [{"kind": "inst", "key": k} for k in discover()]
     sh.append({"kind": "vertex_weights"})
+    for k in discover_coords():
+        sh.append({"kind": "coord", "key": k})
     sh.append({"kind": "time_fixed", "lo": 0, "hi": 10})
     sh.append({"kind": "time_fixed", "lo": 10, "hi": 20})
     for i in range(12 if th else 4):
@@ -378,6 +470,11 @@ def run_shard(ctx, shard):
         else:
             n = check_qnp(ctx, key, o)
         ctx.bulk(n, max(n - 3, 0), None, sample)
+    elif k == "coord":
+        o, paths = discover_coords()[shard["key"]]
+        ctx.count("coord_instances")
+        n = check_coord(ctx, shard["key"], o)
+        ctx.bulk(n, n - 1, None, {"coord": shard["key"], "reached_via": paths[0][:160], "occurrences": len(paths)})
     elif k == "vertex_weights":
         n = check_vertex_weights(ctx)
         ctx.count("instances")
@@ -403,6 +500,10 @@ def run_shard(ctx, shard):
 
 
 def replay(ctx, case):
+    if isinstance(case, dict) and "coord" in case:
+        o, _ = discover_coords()[case["coord"]]
+        check_coord(ctx, case["coord"], o)
+        return []
     out_ctx = ctx
     inst = case.get("instance") if isinstance(case, dict) else None
     if inst is None and isinstance(case, dict) and "duration" in case:
